@@ -121,11 +121,13 @@ SPEC = {
         "compare_total", "primaryRank_diag", "primaryRank_ne_exact", "order_agrees", "worstToBest_agrees",
         "needsLvalue_table",
         # the property, for all candidate lists / arities / arguments
-        "resolve_perm", "selected_is_viable", "selected_not_dominated", "selected_not_dominated_componentwise",
+        "resolve_perm", "resolve_perm_normalized", "selected_is_viable", "selected_not_dominated", "selected_not_dominated_componentwise",
         "finals_are_the_exact_matches", "unique_exact_selected", "twin_exact_ambiguous",
         # the conversion model and the property as worded on its own quantifier
         "find_total", "findRank_total_off_matrix", "resolve_no_panic", "exact_rank_iff_same_type_on_grid",
         "exact_type_match_selected_on_grid", "exact_type_twins_ambiguous_on_grid",
+        # the model with get_rank evaluated lazily, loop by loop as in the source, computes the same outcome
+        "resolveLazy_eq_resolve", "resolveLazy_perm",
         # recorded readings / witnesses (decide on concrete inputs, replayed on the real code by corpus/C16.txt)
         "in_out_twin_is_ambiguous", "default_twin_is_ambiguous", "vec1_twin_is_ambiguous",
         "tournament_without_winner", "scalar_to_matrix_panics"]],
@@ -154,7 +156,8 @@ SPEC = {
         "compare, VectorRank + worst_to_best, the (source_scalar,dest_scalar) rank match, get_rank's DimensionCast match) "
         "— re-run on /repo's working tree every time",
         "hand-written Model/Conv.lean (dimension/primary/modifier cast logic of find) and Model/Overload.lean "
-        "(find_function_type) — tied to the code by the correspondence run only",
+        "(find_function_type: `resolveLazy` is the loop-by-loop transcription answering the correspondence requests, "
+        "`resolve` the form the theorems use, proved equal) — tied to the code by the correspondence run only",
         "Spec/Overload.lean: our reading of better/worse conversions, domination and exact match",
     ],
     "assumptions": [
